@@ -49,6 +49,10 @@ class MultitaskKernel(Kernel):
         covar_i = self.task_covar_module.covar_matrix
         if len(x1.shape[:-2]):
             covar_i = covar_i.repeat(*x1.shape[:-2], 1, 1)
+        # forward() of the data kernel is called directly, which bypasses Kernel.__call__: select its active dims here
+        if self.data_covar_module.active_dims is not None:
+            x1 = x1.index_select(-1, self.data_covar_module.active_dims)
+            x2 = x2.index_select(-1, self.data_covar_module.active_dims)
         covar_x = to_linear_operator(self.data_covar_module.forward(x1, x2, **params))
         res = KroneckerProductLinearOperator(covar_x, covar_i)
         return res.diagonal(dim1=-1, dim2=-2) if diag else res
